@@ -21,7 +21,38 @@ RULE = ("scenario = one log (timestamps in any order, undated lines anywhere, lo
 HETERO_SIG = 'hetero-matchers/any-pass-not-all'
 
 
+def gen_long_undated(rng):
+    """ a run of undated lines around the seeker's 500-line fallback limit between an old
+    dated line and the first line that satisfies the since constraint: the per-search gate has
+    no such limit - it opens at the first passing line, never earlier """
+    from datetime import timedelta
+    from vh import matchers
+    t0 = gen.BASE
+    nshare = rng.choice([1, 1, 2, 3])
+    n = rng.choice([499, 500, 501, 502, 520]) // rng.choice([1, nshare]) + rng.choice([0, 1, 2])
+    lines = [matchers.fmt_ts('std', t0, rng).encode() + b' old B warn']
+    lines += [rng.choice([b'B undated', b'  at frame x', b'S err']) for _ in range(n)]
+    for k in range(rng.choice([1, 3])):
+        lines.append(matchers.fmt_ts('std', t0 + timedelta(days=2, seconds=k), rng).encode() +
+                     rng.choice([b' S new', b' B err 7', b' E done']))
+    lines += [b'B tail undated']
+    cur = t0 + timedelta(days=2)
+    cons = [{'current': cur.strftime('%Y-%m-%d %H:%M:%S'), 'days': 1, 'matcher': 'std'}]
+    defs = []
+    for _ in range(nshare):
+        d = gen.gen_simple_def(rng)
+        d['cons'] = [0]
+        defs.append(d)
+    if rng.random() < 0.5:
+        defs.append(gen.gen_simple_def(rng))           # an unconstrained neighbour
+    return {'files': [{'name': 'f0.log', 'content': (b'\n'.join(lines) + b'\n').hex()}],
+            'defs': defs, 'regs': [[i, 0, True] for i in range(len(defs))], 'constraints': cons,
+            '_expanded': {'': [0], 'f*.log': [0]}}
+
+
 def gen_scenario(rng, tier):
+    if rng.random() < 0.01:
+        return gen_long_undated(rng)
     kind = rng.choice(['std', 'std', 'multi', 'derived'])
     n = rng.choice([0, 1, 2, 4, 7, 12, 25, 50])
     content, times = K.gen_log(rng, n, kind, ordered=rng.random() < 0.4,
